@@ -5,6 +5,13 @@ import WindVerif.Proofs.PoolLife
 Property theorems only (proofs in `Proofs/PoolLife*.lean`); they hold for every configuration incl. the injected faults
 (`begin()` raising, the functor raising at any chunk), every call history and every interleaving (`Reach cfg s`).
 That `__exit__` itself terminates is part of C02 (`imap_no_deadlock`; D19 repaired: for every work-queue bound).
+
+`until_all_ready()` in the MIDDLE of a call (the caller's program with `Cfg.readyMid`: in every call, right after the call's
+first result, with the replace thread alive) is part of the model: `ready_mid_after_begin` (every worker the loop has
+waited for has completed `begin()`), `ready_mid_slot` / `ready_mid_next` (which workers these are: the occupant of slot `i`
+of the live list at the moment the loop arrives there, one wait per slot, in order), `ready_mid_listed` (the caller's view:
+listed before the call and after it ⇒ `begin()` completed).  The theorems of C01–C03 hold for this
+caller program too (same statements).
 -/
 namespace WindVerif.C04
 open WindVerif.Pool
@@ -26,13 +33,90 @@ theorem ready_after_begin (cfg : Cfg) (s : St) (h : Reach cfg s) (hr : cfg.waitR
     (w : Worker) (hw : w ∈ s.workers) (hinit : w.wid < cfg.nWorkers) : WEv.begin ∈ w.log ∧ (w.pc ≠ .exited → w.bf = true) := by
   first | exact WindVerif.Pool.ready_after_begin .. | (apply WindVerif.Pool.ready_after_begin <;> assumption)
 
+/-- `until_all_ready()` called in the MIDDLE of a call (`Cfg.readyMid`: in every call, right after the call's first
+result, while the replace thread may be exchanging workers): let the consumer be at the wait for worker `wid` — the occupant
+of slot `i` of `procs` at the moment the loop `for p in self.procs` arrived at that slot (`ready_mid_slot`) — in a reachable
+state `s`.  In every later state `s'` in which the consumer is no longer at that wait, in particular as soon as
+`until_all_ready()` has returned, worker `wid` has completed `begin()`: `begin_finished` is set and `begin` is logged.  For
+every configuration (faults included), every call history and every interleaving.  Exactly the workers the consumer has
+been at a `midReady` pc for are covered: a successor the replace thread lists in a slot the loop has already passed, or
+has already fetched the old occupant of, is NOT waited for (second example below). -/
+theorem ready_mid_after_begin (cfg : Cfg) (s : St) (h : Reach cfg s) (i wid : Nat) (hpc : s.cpc = .midReady i wid)
+    (sched : List Tid) (s' : St) (hrun : run s sched = some s') (hleft : s'.cpc ≠ .midReady i wid) :
+    ∃ w ∈ s'.workers, w.wid = wid ∧ w.bf = true ∧ WEv.begin ∈ w.log := by
+  first | exact WindVerif.Pool.ready_mid_after_begin .. | (apply WindVerif.Pool.ready_mid_after_begin <;> assumption)
+
+/-- which worker is waited for in slot `i`: the consumer arrives at `midReady i wid` only by a step of its own, and `wid` is
+what `procs[i]` holds at that very moment (the loop iterates over the LIVE list, no snapshot): slot 0 when the first result
+of a call has just been emitted (`readyMid`), slot `j + 1` when the wait for slot `j` has returned -/
+theorem ready_mid_slot (cfg : Cfg) (s s' : St) (t : Tid) (i wid : Nat) (hr : Reach cfg s) (h : step s t = some s')
+    (hm : s'.cpc = .midReady i wid) (hnew : s.cpc ≠ .midReady i wid) :
+    t = .c ∧ s.procs[i]? = some wid ∧ s'.procs = s.procs ∧
+    ((i = 0 ∧ (s.cpc = .lockRel ∨ s.cpc = .getBlock) ∧ cfg.readyMid = true) ∨ ∃ j w0, i = j + 1 ∧ s.cpc = .midReady j w0) := by
+  first | exact WindVerif.Pool.ready_mid_slot .. | (apply WindVerif.Pool.ready_mid_slot <;> assumption)
+
+/-- the loop: the step at the wait for slot `i` needs `begin_finished` of the fetched worker, goes on to the occupant of
+slot `i + 1` of the list as it is now, and leaves `until_all_ready()` exactly when there is no such slot: one wait per slot,
+in order -/
+theorem ready_mid_next (s s' : St) (i wid : Nat) (hpc : s.cpc = .midReady i wid) (h : step s .c = some s') :
+    (∃ w ∈ s.workers, w.wid = wid ∧ w.bf = true) ∧
+    (match s.procs[i + 1]? with
+     | some v => s'.cpc = .midReady (i + 1) v
+     | none => ∀ j v, s'.cpc ≠ .midReady j v) := by
+  first | exact WindVerif.Pool.ready_mid_next .. | (apply WindVerif.Pool.ready_mid_next <;> assumption)
+
+/-- the caller's view (the oracle the harness applies to the real code): `s₀` is the moment `until_all_ready()` is entered
+in the middle of a call (the loop has just fetched slot 0: `procs[0] = w₀`); in any later state `s₁` in which the consumer is
+not inside an `until_all_ready()` — e.g. right after the call has returned — every worker that was listed in `s₀` and is
+still listed in `s₁` has completed `begin()`.  (A worker listed before and after sat in its slot all the time — a slot is
+only ever overwritten with a fresh wid —, so it was the occupant when the loop arrived there.) -/
+theorem ready_mid_listed (cfg : Cfg) (s₀ : St) (h : Reach cfg s₀) (w₀ : Nat) (hpc : s₀.cpc = .midReady 0 w₀)
+    (hfetch : s₀.procs[0]? = some w₀) (sched : List Tid) (s₁ : St) (hrun : run s₀ sched = some s₁)
+    (hleft : ∀ j v, s₁.cpc ≠ .midReady j v) (v : Nat) (hb : v ∈ s₀.procs) (ha : v ∈ s₁.procs) :
+    ∃ w ∈ s₁.workers, w.wid = v ∧ w.bf = true ∧ WEv.begin ∈ w.log := by
+  first | exact WindVerif.Pool.ready_mid_listed .. | (apply WindVerif.Pool.ready_mid_listed <;> assumption)
+
 /-- when the pool context has been left (no join timeout), no worker is running — replaced workers included -/
 theorem exit_joins_all (cfg : Cfg) (s : St) (h : Reach cfg s) (hd : s.cpc = .done) : AllExited s := by
   first | exact WindVerif.Pool.exit_joins_all .. | (apply WindVerif.Pool.exit_joins_all <;> assumption)
 
 /-- non-vacuity: a worker whose functor raises at its first chunk still logs begin · item · end -/
-example : ((run (init ⟨1, none, none, false, none, false, [⟨1, true⟩], [], [(0, 0)]⟩)
+example : ((run (init ⟨1, none, none, false, none, false, [⟨1, true⟩], [], [(0, 0)], false⟩)
     [.c, .w 0, .w 0, .c, .c, .c, .c, .f, .w 0]).map (fun s => s.workers.map (·.log))) =
     some [[.begin, .item 0, .end_]] := by decide
+
+/-- a factory pool with 2 workers, quota 1, one unordered call of 2 chunks, `until_all_ready()` in the middle of the call -/
+def midCfg : Cfg := ⟨2, none, none, true, some 1, false, [⟨2, false⟩], [], [], true⟩
+
+/-- enter, start of the call, both workers through `begin()`, the feeder sends chunk 0, worker 0 delivers it, the consumer
+drains it: the first result of the call is emitted and the consumer stands at the wait for worker 0 (slot 0) -/
+def midSched : List Tid :=
+  [.c, .c, .c, .c, .c, .c, .c, .c, .w 0, .w 0, .w 1, .w 1, .f, .f, .f, .f, .f, .w 0, .w 0, .w 0, .w 0,
+   .c, .c, .c, .c, .c, .c, .c]
+
+/-- non-vacuity of `ready_mid_after_begin`: the consumer is at the wait for worker 0, the occupant of slot 0 -/
+example : (run (init midCfg) midSched).map (fun s => (s.cpc, s.procs)) = some (.midReady 0 0, [0, 1]) := by decide
+
+/-- … worker 0 retires (quota 1) and the replace thread SWAPS it for its successor 2 while the consumer is inside the
+mid-call wait: the consumer still waits for the worker it fetched (0), not for the new occupant of the slot -/
+example : (run (init midCfg) (midSched ++ [.w 0, .r, .r])).map (fun s => (s.cpc, s.procs)) =
+    some (.midReady 0 0, [2, 1]) := by decide
+
+/-- … that wait returns (the hypotheses of the theorem: a reachable state at `midReady 0 0`, a later one elsewhere) -/
+example : (run (init midCfg) midSched).bind (fun s => (run s [.w 0, .r, .r, .c]).map (fun s' => (s.cpc, s'.cpc, s'.procs))) =
+    some (.midReady 0 0, .midReady 1 1, [2, 1]) := by decide
+
+/-- … the hypotheses of `ready_mid_listed`: slot 0 just fetched in `s₀`; later the consumer is outside `until_all_ready()`,
+worker 1 was listed in `s₀` and still is -/
+example : (run (init midCfg) midSched).bind (fun s => (run s [.w 0, .r, .r, .c, .c]).map
+    (fun s' => (s.cpc, s.procs[0]?, s.procs, s'.cpc, s'.procs))) =
+    some (.midReady 0 0, some 0, [0, 1], .rdSending, [2, 1]) := by decide
+
+/-- … and after the wait for worker 1 `until_all_ready()` has returned: workers 0 and 1 — the ones waited for — have
+completed `begin()`; the successor 2, listed in slot 0 after that slot's occupant had been fetched, has not even been
+started: the theorem cannot promise more than it does -/
+example : (run (init midCfg) (midSched ++ [.w 0, .r, .r, .c, .c])).map
+    (fun s => (s.cpc, s.procs, s.workers.map (fun w => (w.wid, w.bf, w.pc)))) =
+    some (.rdSending, [2, 1], [(0, true, .exited), (1, true, .get), (2, false, .notStarted)]) := by decide
 
 end WindVerif.C04
